@@ -330,7 +330,13 @@ def stored_uv(sc, f: int, file_index: int | None = None):
         qu = np.clip(np.rint(du / su), -32000, 32000).astype(np.int16)
         qv = np.clip(np.rint(dv / sv), -32000, 32000).astype(np.int16)
         return qu, qv, (su, sv)
-    return du.astype(np.float32), dv.astype(np.float32), None
+    du, dv = du.astype(np.float32), dv.astype(np.float32)
+    if sc["frames"].get("land_fill"):
+        # the ocean model leaves its fill value on land faces (ROMS: 1e37); only the land mask makes them zero
+        mu, mv = face_masks(sc)
+        du[:, mu == 0] = np.float32(1.0e37)
+        dv[:, mv == 0] = np.float32(1.0e37)
+    return du, dv, None
 
 
 def truth_uv(sc, f: int) -> tuple[np.ndarray, np.ndarray]:
@@ -382,4 +388,7 @@ def truth_scalar(sc, name: str, f: int) -> np.ndarray:
         ident = ((f * N + K) * jm + J) * im + I
         off = {"temp": 0.0, "salt": 0.5}.get(name, 0.25)
         val = 1.0 + off + ident * 0.0625  # exactly representable steps in float32
-    return val.astype(np.float32).astype(np.float64)
+    val = val.astype(np.float32)
+    if sc["frames"].get("land_fill") and not sc["frames"].get("scalar_packed"):
+        val[:, mask_rho(sc) == 0] = np.float32(1.0e37)      # fill value in land cells
+    return val.astype(np.float64)
